@@ -72,6 +72,22 @@ Theorem C18_depth_unbalanced : forall maxd pos, 0 < maxd ->
 Proof. exact depth_unbalanced. Qed.
 Print Assumptions C18_depth_unbalanced.
 
+(** The second mechanism at work (shape of goldmaster's cycleTuple: n:# ns:# a:n.0?(Tuple T 2) b:(Tuple T ns)): although
+    maxDepth <= 5, on the splitmix stream of seed 5 the recursion is still going at nesting depth 150. *)
+Definition ct_schema : schema :=
+  [ TPrim PNat;
+    TStruct 99 [mkField 0 true None []; mkField 0 true None [];
+                mkField 2 true (Some (NField 0, 0)) [];
+                mkField 3 true None [NField 1]];
+    TArray (ATupleFixed 2) (mkField 1 true None []);
+    TArray ATupleDyn (mkField 1 true None []) ].
+Definition ct_x : xschema :=
+  [ XPlain; XStruct [mkX false (UMask 1 false); mkX false USize; mkX true UNone; mkX false UNone]; XPlain; XPlain ].
+Example ct_xwf : xwf ct_schema ct_x = true.
+Proof. vm_compute. reflexivity. Qed.
+Example ct_recursion_past_the_limit : fill_random 150 ct_schema ct_x 1 [] (splitmix 5) = FFuel.
+Proof. vm_compute. reflexivity. Qed.
+
 (** Non-vacuity: a schema with a field mask, a size field, a vector, a Maybe and a dictionary. *)
 Definition ex_schema : schema :=
   [ TPrim PNat;                                                         (* 0 # *)
